@@ -20,6 +20,9 @@ pub enum StructCase {
     Enc(EncCase),
     Gen(GenCase),
     Mut(MutCase),
+    /// one independently generated frame whose coded frame / sample number sits at or next to a
+    /// boundary between two coded lengths
+    Bare(super::c03::BareCase),
 }
 
 /// (stream bytes, frame spans) for the case
@@ -39,6 +42,44 @@ fn frames_of(c: &StructCase, out: &mut Outcome) -> Option<(Vec<u8>, Vec<(usize, 
             let gs = framegen::gen_stream(&mut rng, g.low_depth, g.max_frames.max(1) as usize, g.max_bs.max(16));
             let spans = gs.frames.iter().map(|f| (f.0, f.1)).collect();
             Some((gs.bytes, spans))
+        }
+        StructCase::Bare(b) => {
+            use crate::framegen::{Chooser, HeaderChoice};
+            out.label("source:generator-boundary-number");
+            let mut rng = Rng(b.seed);
+            let p = super::c03::bare_params(&mut rng);
+            let bs = b.bs.clamp(1, 4096) as usize;
+            let pcm = framegen::gen_pcm(&mut rng, p.channels, p.bps, bs);
+            let variable = rng.chance(1, 2);
+            // boundaries between the 1..7-byte forms, and their neighbours
+            const EDGES: [u64; 7] = [0x7F, 0x7FF, 0xFFFF, 0x1F_FFFF, 0x3FF_FFFF, 0x7FFF_FFFF, 0xF_FFFF_FFFF];
+            let e = EDGES[(b.number_class % 7) as usize];
+            let number = match rng.below(3) {
+                0 => e,
+                1 => e + 1,
+                _ => e - 1,
+            };
+            let number = if !variable { number.min(0x7FFF_FFFF) } else { number.min(0xF_FFFF_FFFF) };
+            let hc = HeaderChoice { variable, number, number_len: 0, allow_streaminfo_codes: false };
+            let ir = framegen::gen_frame(&mut rng, &p, &pcm, &hc);
+            let fb = framegen::serialize_frame(&ir);
+            let si = crate::refmeta::RBlock::Streaminfo {
+                min_bs: bs.max(16) as u16,
+                max_bs: bs.max(16) as u16,
+                min_fs: 0,
+                max_fs: 0,
+                rate: p.rate,
+                channels: p.channels,
+                bps: p.bps,
+                total: 0,
+                md5: [0; 16],
+            };
+            let mut bytes = b"fLaC".to_vec();
+            bytes.extend_from_slice(&block_header(true, 0, 34));
+            bytes.extend_from_slice(&si.payload());
+            let off = bytes.len();
+            bytes.extend_from_slice(&fb);
+            Some((bytes, vec![(off, fb.len())]))
         }
         StructCase::Mut(m) => {
             out.label("source:generator-mutant");
@@ -188,13 +229,14 @@ impl Engine for Structural {
         match c {
             StructCase::Enc(e) => serde_json::json!({"source": "crate-encoder", "bps": e.recipe.bps, "frames": e.recipe.frames, "block_size": e.opts.block_size}),
             StructCase::Gen(g) => serde_json::json!({"source": "generator", "case": g}),
+            StructCase::Bare(b) => serde_json::json!({"source": "boundary-number", "case": b}),
             StructCase::Mut(m) => serde_json::json!({"source": "mutant", "case": m, "classes": build_mutant(m).1.iter().map(|x| x.class).collect::<Vec<_>>()}),
         }
     }
 }
 
 pub const RULE: &str = "frames come from (a) the crate's encoder over the C01 space, (b) the independent generator (valid, every syntactic \
-alternative), (c) generator mutants with 1-3 illegal/extreme fields and recomputed checksums. Each frame is given to Frame::read with a \
+alternative), (c) generator mutants with 1-3 illegal/extreme fields and recomputed checksums, (d) single generated frames whose coded number is at or next to a boundary between two coded lengths. Each frame is given to Frame::read with a \
 STREAMINFO carrying the stream's parameters but an unknown total (so stream-level rules cannot interfere) and, wrapped as a one-frame \
 stream with that same STREAMINFO, to the streaming decoder. Oracle: parser accepts <=> decoder accepts; every subframe's decode() \
 yields block-size samples; when the independent decoder finds all values in range, parser output (after undoing decorrelation in the \
@@ -219,6 +261,7 @@ pub fn run(ctx: &Ctx) {
             1 => tonal_case_strategy().prop_map(StructCase::Enc),
             3 => gen_case_strategy(600).prop_map(StructCase::Gen),
             4 => mut_case_strategy().prop_map(StructCase::Mut),
+            1 => (any::<u64>(), 1u32..200, 0u8..7).prop_map(|(seed, bs, number_class)| StructCase::Bare(super::c03::BareCase { seed, bs, number_class })),
         ]
         .boxed()
     });
